@@ -1,8 +1,9 @@
 import FeatherModel.Lemmas.ClassWriteFullField
+import FeatherModel.Lemmas.ClassWriteFullCodeMain
 
 /-!
-# C02 (whole writer) — `write_method` for methods without `Code`: the bytes are the encoding of a legal
-`MethodLayout` denoting the method
+# C02 (whole writer) — `write_method`: the bytes are the encoding of a legal `MethodLayout` denoting the method (its
+`Code`, if any, with the labels resolved)
 -/
 
 namespace ClassWriteFull
@@ -12,9 +13,9 @@ open ClassRead ClassRead.Spec
 
 def SMethodAttr.frame (a : SMethodAttr) : Bytes := attrFrame a.raw.1 a.raw.2
 
-/-- conditions on a method of the proved fragment (no `Code`) -/
+/-- conditions on a method of the proved fragment (a `Code` attribute, if any, as in `CodeOk`) -/
 structure MethodOk (m : MethodFacts) : Prop where
-  code : m.code = none
+  code : ∀ c, m.code = some c → CodeOk c
   rva : AnnosOk m.rva
   ria : AnnosOk m.ria
   rvta : TypeAnnosOk .method m.rvta
@@ -216,17 +217,63 @@ theorem mblocks_unknown {m : MethodFacts} (hok : ∀ a ∈ m.attrs, a.name ∉ m
   · intro st _
     exact applyAll_method_unknown st ncs m.attrs hlen
 
+/-- the `Code` block of `write_method` -/
+theorem codeAttr_spec {code : Option Code} {p p' : Pool} {bs bs' : List Bsm} {as : List Bytes} (hg : Good p)
+    (hok : ∀ c, code = some c → CodeOk c) (h : codeAttr code p bs = .ok (as, p', bs')) :
+    bs' = bs ∧ Step p p' ∧ ∃ (o : Option Bytes) (code' : Option Code), as = o.toList ∧
+      ((code = none ∧ code' = none ∧ o = none) ∨
+        ∃ (c : Code) (cl : CodeLayout) (nc : Nat), code = some c ∧ c.resolve = some cl.facts ∧ code' = some cl.facts ∧
+          Present o p' sCode cl.encode ∧ (∀ bsms, Sound p' (fun rp => cl.Legal rp bsms)) ∧ cl.encode.length < 4294967296) := by
+  cases code with
+  | none =>
+    have := ok_inj.mp (show (Except.ok ([], p, bs) : Except Fail _) = .ok (as, p', bs') from h)
+    simp only [Prod.mk.injEq] at this
+    obtain ⟨rfl, rfl, rfl⟩ := this
+    exact ⟨rfl, Step.refl hg, none, none, rfl, Or.inl ⟨rfl, rfl, rfl⟩⟩
+  | some c =>
+    obtain ⟨⟨b, p1, bs1⟩, h1, h⟩ := bind_eq_ok.mp h
+    obtain ⟨⟨i, p2⟩, h2, h⟩ := bind_eq_ok.mp h
+    obtain ⟨l, h3, h⟩ := bind_eq_ok.mp h
+    obtain ⟨hl, rfl⟩ := cnt32_eq_ok.mp h3
+    have := pure_eq_ok.mp h
+    simp only [Prod.mk.injEq] at this
+    obtain ⟨rfl, rfl, rfl⟩ := this
+    have hc := hok c rfl
+    unfold CodeOk at hc
+    cases hr : c.resolve with
+    | none => rw [hr] at hc; exact hc.elim
+    | some c' =>
+      rw [hr] at hc
+      simp only at hc
+      have hc' := code_resolve_eq hr
+      rw [hc'] at hc
+      obtain ⟨rfl, s1, cl, rfl, hsd, hf⟩ := writeCode_spec rfl hg hc h1
+      obtain ⟨s2, a2, hi⟩ := putUtf8_spec s1.good h2
+      refine ⟨rfl, s1.trans s2, some (attrFrame i cl.encode), some cl.facts, rfl, Or.inr ⟨c, cl, i, rfl, ?_, rfl,
+        ⟨i, rfl, hi, a2⟩, fun bsms => (hsd bsms).mono s2.le, by omega⟩⟩
+      rw [hf, ← hc']
+      exact hr
+
+theorem mblock_code {o : Option Bytes} {q : Pool} {code' : Option Code}
+    (c : (code' = none ∧ o = none) ∨
+      ∃ (cl : CodeLayout), code' = some cl.facts ∧ Present o q sCode cl.encode ∧
+        (∀ bsms, Sound q (fun rp => cl.Legal rp bsms)) ∧ cl.encode.length < 4294967296) :
+    GBlock ownMethod o q (fun st => st.code = none) (fun st => { st with code := code' }) := by
+  rcases c with ⟨rfl, rfl⟩ | ⟨cl, rfl, ⟨nc, rfl, hn, a⟩, hs, hl⟩
+  · exact gblock_absent (fun st hst => by cases st; simp_all)
+  · exact gblock_present (O := ownMethod) (.code nc cl)
+      (fun q' hq bsms => ⟨hn, getUtf8_of hq.good (a.mono hq.le), hs bsms q' hq, hl⟩)
+      (fun st hst => by simp [ownMethod, SMethodAttr.apply, hst])
+
 theorem writeMethod_spec {p p' : Pool} {bs bs' : List Bsm} {m : MethodFacts} {b : Bytes} (hg : Good p) (hok : MethodOk m)
     (h : writeMethod p bs m = .ok (b, p', bs')) :
     bs' = bs ∧ Step p p' ∧
-      ∃ l : MethodLayout, b = l.encode ∧ (∀ bsms, Sound p' (fun rp => l.Legal rp bsms)) ∧ l.facts = some m := by
+      ∃ l : MethodLayout, b = l.encode ∧ (∀ bsms, Sound p' (fun rp => l.Legal rp bsms)) ∧
+        ∃ m', m.resolve = some m' ∧ l.facts = some m' := by
   obtain ⟨⟨ni, p1⟩, h1, h⟩ := bind_eq_ok.mp h
   obtain ⟨⟨di, p2⟩, h2, h⟩ := bind_eq_ok.mp h
   obtain ⟨⟨as1, p3⟩, h3, h⟩ := bind_eq_ok.mp h
   obtain ⟨⟨as2, p4, bs2⟩, h4, h⟩ := bind_eq_ok.mp h
-  rw [hok.code] at h4
-  have := ok_inj.mp (show (Except.ok ([], p3, bs) : Except Fail _) = .ok (as2, p4, bs2) from h4)
-  cases this
   obtain ⟨⟨as3, p5⟩, h5, h⟩ := bind_eq_ok.mp h
   obtain ⟨ab, h6, h⟩ := bind_eq_ok.mp h
   have := pure_eq_ok.mp h
@@ -245,7 +292,8 @@ theorem writeMethod_spec {p p' : Pool} {bs bs' : List Bsm} {m : MethodFacts} {b 
   obtain ⟨o10, q10, r8, e10, k7, rfl⟩ := runAttrs_cons_inv k6
   obtain ⟨t1, c1⟩ := flagAttr_spec s2.good e1
   obtain ⟨t2, c2⟩ := flagAttr_spec t1.good e2
-  obtain ⟨t3, c3⟩ := classListAttr_spec (name := sExceptions) t2.good e3
+  obtain ⟨rfl, tc, oc, code', rfl, cc⟩ := codeAttr_spec t2.good hok.code h4
+  obtain ⟨t3, c3⟩ := classListAttr_spec (name := sExceptions) tc.good e3
   obtain ⟨t4, c4⟩ := sigAttr_spec t3.good e4
   obtain ⟨t5, c5⟩ := annosAttr_spec t4.good hok.rva e5a
   obtain ⟨t6, c6⟩ := annosAttr_spec t5.good hok.ria e6
@@ -290,12 +338,20 @@ theorem writeMethod_spec {p p' : Pool} {bs bs' : List Bsm} {m : MethodFacts} {b 
   have s4 := t5.trans s5
   have s3 := t4.trans s4
   have s2' := t3.trans s3
-  have s1' := t2.trans s2'
+  have sc := tc.trans s2'
+  have s1' := t2.trans sc
   have s0 := t1.trans s1'
   refine ⟨rfl, s1.trans (s2.trans s0), ?_⟩
+  have ccode : (code' = none ∧ oc = none) ∨
+      ∃ (cl : CodeLayout), code' = some cl.facts ∧ Present oc p4 sCode cl.encode ∧
+        (∀ bsms, Sound p4 (fun rp => cl.Legal rp bsms)) ∧ cl.encode.length < 4294967296 := by
+    rcases cc with ⟨_, h2', h3'⟩ | ⟨c, cl, nc, _, _, h3', h4', h5', h6'⟩
+    · exact Or.inl ⟨h2', h3'⟩
+    · exact Or.inr ⟨cl, h3', h4', h5', h6'⟩
   have B :=
     GBlocks.cons' (mblock_deprecated c1) s1'.le
-    (GBlocks.cons' (mblock_synthetic c2) s2'.le
+    (GBlocks.cons' (mblock_synthetic c2) sc.le
+    (GBlocks.cons (mblock_code ccode) s2'.le
     (GBlocks.cons (mblock_exceptions hok.exceptions c3) s3.le
     (GBlocks.cons (mblock_signature c4) s4.le
     (GBlocks.cons' (mblock_annos true c5) s5.le
@@ -314,12 +370,14 @@ theorem writeMethod_spec {p p' : Pool} {bs bs' : List Bsm} {m : MethodFacts} {b 
       (pre := fun c : MethodFacts => c.signature = none ∧ c.annotationDefault = none ∧ c.params = none) (fun c h => ⟨h.1, h.2⟩))
       (pre := fun c : MethodFacts => c.exceptions = none ∧ c.signature = none ∧ c.annotationDefault = none ∧ c.params = none)
       (fun c h => ⟨h.1, h.2⟩))
-      (pre2 := fun c : MethodFacts => c.exceptions = none ∧ c.signature = none ∧ c.annotationDefault = none ∧ c.params = none)
-      (fun c h => ⟨h.1, h.2⟩))
-      (pre2 := fun c : MethodFacts => c.exceptions = none ∧ c.signature = none ∧ c.annotationDefault = none ∧ c.params = none)
-      (fun c h => ⟨h.1, h.2⟩)
+      (pre := fun c : MethodFacts => c.code = none ∧ c.exceptions = none ∧ c.signature = none ∧ c.annotationDefault = none ∧
+        c.params = none) (fun c h => ⟨h.1, h.2⟩))
+      (pre2 := fun c : MethodFacts => c.code = none ∧ c.exceptions = none ∧ c.signature = none ∧ c.annotationDefault = none ∧
+        c.params = none) (fun c h => ⟨h.1, h.2.1, h.2.2⟩))
+      (pre2 := fun c : MethodFacts => c.code = none ∧ c.exceptions = none ∧ c.signature = none ∧ c.annotationDefault = none ∧
+        c.params = none) (fun c h => ⟨h.1, h.2.1, h.2.2⟩)
   obtain ⟨attrs, hbytes, hsound, hfacts⟩ := B
-  have hb' : o1.toList ++ (o2.toList ++ []) ++ [] ++ (o3.toList ++ (o4.toList ++ (o5.toList ++ (o6.toList ++ (o7.toList ++
+  have hb' : o1.toList ++ (o2.toList ++ []) ++ oc.toList ++ (o3.toList ++ (o4.toList ++ (o5.toList ++ (o6.toList ++ (o7.toList ++
       (o8.toList ++ [])))  ++ (o9.toList ++ (o10.toList ++ List.map (fun x => attrFrame x.fst x.snd.bytes) (ncs.zip m.attrs))))))
       = attrs.map SMethodAttr.frame := by
     rw [show attrs.map SMethodAttr.frame = attrs.map ownMethod.frame from rfl, ← hbytes]; simp [List.append_assoc]
@@ -336,13 +394,20 @@ theorem writeMethod_spec {p p' : Pool} {bs bs' : List Bsm} {m : MethodFacts} {b 
     show attrs.length < 65536
     omega
   · have := hfacts ⟨m.access &&& maskMethod, m.name, m.desc, false, false, none, none, none, [], [], [], [], none, none, []⟩
-      ⟨rfl, rfl, rfl, rfl⟩
-    simp only [MethodLayout.facts]
-    show applyAll ownMethod.apply _ attrs = some m
-    rw [this]
-    have hm := hok.mask
-    have g0 := hok.code
-    cases m
-    simp_all
+      ⟨rfl, rfl, rfl, rfl, rfl⟩
+    refine ⟨{ m with code := code' }, ?_, ?_⟩
+    · unfold MethodFacts.resolve
+      rcases cc with ⟨h1', h2', _⟩ | ⟨c, cl, nc, h1', h2', h3', _⟩
+      · rw [h1', h2']
+        cases m
+        simp_all
+      · rw [h1', h3']
+        simp [h2', bind, Option.bind]
+    · simp only [MethodLayout.facts]
+      show applyAll ownMethod.apply _ attrs = some _
+      rw [this]
+      have hm := hok.mask
+      cases m
+      simp_all
 
 end ClassWriteFull
